@@ -11,6 +11,7 @@ import (
 	"github.com/hydraide/hydraide/app/core/hydra"
 	"github.com/hydraide/hydraide/app/core/hydra/lock"
 	"github.com/hydraide/hydraide/app/core/hydra/swamp"
+	"github.com/hydraide/hydraide/app/core/hydra/swamp/bucket/valuecanon"
 	"github.com/hydraide/hydraide/app/core/hydra/swamp/metadata"
 	"github.com/hydraide/hydraide/app/core/hydra/swamp/treasure"
 	"github.com/hydraide/hydraide/app/core/hydra/swamp/treasure/guard"
@@ -660,5 +661,90 @@ func VerifC26Malformed(h *verifrt.H) {
 	} else {
 		h.Assert(gerr != nil || gr != nil, "server-usable-afterwards")
 	}
+	h.Cover("end")
+}
+
+// ---------- C08: one equality rule on both routes ----------
+
+// VerifC08Equality: a body field holding a value of any numeric kind / string / bool (symbolic)
+// is compared for EQUAL against a compare value of any kind (symbolic) by the two routes a
+// streamed query can take: the full-scan route (evaluateBytesFieldFilterAgainstMap on the decoded
+// body) and the auto-index route (canonical keys: the record is found in a bucket iff
+// valuecanon.Equal(Canonicalize(field), Canonicalize(compare value))). Both verdicts must agree.
+func VerifC08Equality(h *verifrt.H) {
+	var field any
+	numeric := true
+	switch h.Choose("fieldKind", 12) {
+	case 0:
+		field = h.Int8("field")
+	case 1:
+		field = h.Int16("field")
+	case 2:
+		field = h.Int32("field")
+	case 3:
+		field = h.Int64("field")
+	case 4:
+		field = h.Uint8("field")
+	case 5:
+		field = h.Uint16("field")
+	case 6:
+		field = h.Uint32("field")
+	case 7:
+		field = h.Uint64("field")
+	case 8:
+		f := h.Float32("field")
+		h.Assume(f == f)
+		field = f
+	case 9:
+		f := h.Float64("field")
+		h.Assume(f == f)
+		field = f
+	case 10:
+		field, numeric = h.String("field", 1), false
+	case 11:
+		field, numeric = h.Bool("field"), false
+	}
+	path := "f"
+	flt := &hydrapb.TreasureFilter{Operator: hydrapb.Relational_EQUAL, BytesFieldPath: &path}
+	switch h.Choose("compareKind", 12) {
+	case 0:
+		flt.CompareValue = &hydrapb.TreasureFilter_Int8Val{Int8Val: int32(h.Int8("cmp"))}
+	case 1:
+		flt.CompareValue = &hydrapb.TreasureFilter_Int16Val{Int16Val: int32(h.Int16("cmp"))}
+	case 2:
+		flt.CompareValue = &hydrapb.TreasureFilter_Int32Val{Int32Val: h.Int32("cmp")}
+	case 3:
+		flt.CompareValue = &hydrapb.TreasureFilter_Int64Val{Int64Val: h.Int64("cmp")}
+	case 4:
+		flt.CompareValue = &hydrapb.TreasureFilter_Uint8Val{Uint8Val: uint32(h.Uint8("cmp"))}
+	case 5:
+		flt.CompareValue = &hydrapb.TreasureFilter_Uint16Val{Uint16Val: uint32(h.Uint16("cmp"))}
+	case 6:
+		flt.CompareValue = &hydrapb.TreasureFilter_Uint32Val{Uint32Val: h.Uint32("cmp")}
+	case 7:
+		flt.CompareValue = &hydrapb.TreasureFilter_Uint64Val{Uint64Val: h.Uint64("cmp")}
+	case 8:
+		f := h.Float32("cmp")
+		h.Assume(f == f)
+		flt.CompareValue = &hydrapb.TreasureFilter_Float32Val{Float32Val: f}
+	case 9:
+		f := h.Float64("cmp")
+		h.Assume(f == f)
+		flt.CompareValue = &hydrapb.TreasureFilter_Float64Val{Float64Val: f}
+	case 10:
+		flt.CompareValue = &hydrapb.TreasureFilter_StringVal{StringVal: h.String("cmp", 1)}
+	case 11:
+		b := hydrapb.Boolean_FALSE
+		if h.Bool("cmp") {
+			b = hydrapb.Boolean_TRUE
+		}
+		flt.CompareValue = &hydrapb.TreasureFilter_BoolVal{BoolVal: b}
+	}
+	scan := evaluateBytesFieldFilterAgainstMap(map[string]interface{}{"f": field}, flt)
+	cv, ok := compareValueToAny(flt)
+	h.Assert(ok, "compare-value-is-indexable")
+	index := valuecanon.Equal(valuecanon.Canonicalize(field), valuecanon.Canonicalize(cv))
+	_ = numeric
+	h.Assert(scan == index, "scan-route-and-index-route-agree-on-equality")
 	h.Cover("end")
 }
